@@ -14,6 +14,7 @@ import (
 	"testing"
 
 	sdk "github.com/cosmos/cosmos-sdk/types"
+	"github.com/cosmos/cosmos-sdk/types/bech32"
 	authtypes "github.com/cosmos/cosmos-sdk/x/auth/types"
 	"github.com/ethereum/go-ethereum/common"
 	"github.com/ethereum/go-ethereum/crypto"
@@ -247,7 +248,8 @@ func (g *c11Gen) history() {
 		if hasIbc && rng.Intn(3) > 0 { // fund the module's token escrow so that hook conversions can succeed
 			for _, a := range g.accts {
 				if b := w.callUint(w.ctx, c, "balanceOf", a); b != nil && b.Cmp(big.NewInt(4)) > 0 && b.BitLen() < 64 {
-					g.doDump(fmt.Sprintf("ce %s %s %s %s %s", hxs("0x"+c11Hex(c)), new(big.Int).Rsh(b, 1), c11Hex(a), hxs("0x"+c11Hex(a)),
+					ra := sdk.AccAddress(a.Bytes()).String()
+					g.doDump(fmt.Sprintf("ce %s %s %s %s %s %s", hxs("0x"+c11Hex(c)), new(big.Int).Rsh(b, 1), hxs(ra), c11DecField(ra), hxs("0x"+c11Hex(a)),
 						hxs(aggtypes.CreateDenom(c.String()))))
 					break
 				}
@@ -327,11 +329,8 @@ func (g *c11Gen) stepOp() {
 				bal = b
 			}
 		}
-		s := c11Hex(sender)
-		if rng.Intn(40) == 0 {
-			s = "!"
-		}
-		g.doDump(fmt.Sprintf("cc %s %s %s %s", s, hxs(g.rawAddr(recv)), hxs(d), g.amount(bal)))
+		s := g.rawBech(sender)
+		g.doDump(fmt.Sprintf("cc %s %s %s %s %s", hxs(s), c11DecField(s), hxs(g.rawAddr(recv)), hxs(d), g.amount(bal)))
 	case x < 76: // ConvertERC20
 		d := g.pick(g.denomChoices(c))
 		sender := g.anyAcct()
@@ -359,15 +358,12 @@ func (g *c11Gen) stepOp() {
 				bal = b
 			}
 		}
-		rs := c11Hex(recv)
-		if rng.Intn(40) == 0 {
-			rs = "!"
-		}
+		rs := g.rawBech(recv)
 		cc := c
 		if rng.Intn(20) == 0 {
 			cc = w.contracts[rng.Intn(len(w.contracts))]
 		}
-		g.doDump(fmt.Sprintf("ce %s %s %s %s %s", hxs(g.rawAddr(cc)), g.amount(bal), rs, hxs(g.rawAddr(sender)), hxs(d)))
+		g.doDump(fmt.Sprintf("ce %s %s %s %s %s %s", hxs(g.rawAddr(cc)), g.amount(bal), hxs(rs), c11DecField(rs), hxs(g.rawAddr(sender)), hxs(d)))
 	case x < 82: // user ERC-20 transfer (also to the module address)
 		from := g.anyAcct()
 		to := g.anyAcct(w.module, c11Thief)
@@ -483,4 +479,55 @@ func (g *c11Gen) icsOp() {
 		amt = new(big.Int).Set(c11MaxUint)
 	}
 	g.doDump(fmt.Sprintf("ics %s %s %s %s", recv, hxs(base), hxs(v), amt))
+}
+
+// the bech32 string a message names an account with: mostly the chain's prefix; also upper case, foreign prefixes,
+// 32-byte and empty payloads, mixed case, broken checksums, a hex address, empty, garbage
+func (g *c11Gen) rawBech(a common.Address) string {
+	rng := g.r.Rng
+	enc := func(hrp string, b []byte) string {
+		s, err := bech32.ConvertAndEncode(hrp, b)
+		if err != nil {
+			panic(err)
+		}
+		return s
+	}
+	chain := sdk.GetConfig().GetBech32AccountAddrPrefix()
+	good := enc(chain, a.Bytes())
+	switch x := rng.Intn(100); {
+	case x < 70:
+		return good
+	case x < 75:
+		return strings.ToUpper(good)
+	case x < 84:
+		return enc([]string{"osmo", "cosmos", "evmos", chain + "valoper", "tele"}[rng.Intn(5)], a.Bytes())
+	case x < 86:
+		return strings.ToUpper(enc("osmo", a.Bytes()))
+	case x < 89:
+		return enc(chain, append(append([]byte{}, a.Bytes()...), a.Bytes()[:12]...)) // 32 bytes
+	case x < 90:
+		return enc("cosmos", append(append([]byte{}, a.Bytes()...), a.Bytes()[:12]...))
+	case x < 91:
+		return enc(chain, nil) // empty payload
+	case x < 93:
+		return strings.ToUpper(good[:len(chain)]) + good[len(chain):] // mixed case
+	case x < 95:
+		b := []byte(good)
+		if b[len(b)-1] == 'q' {
+			b[len(b)-1] = 'p'
+		} else {
+			b[len(b)-1] = 'q'
+		}
+		return string(b) // broken checksum
+	case x < 96:
+		return a.Hex()
+	case x < 97:
+		return ""
+	case x < 98:
+		return " "
+	case x < 99:
+		return chain + "1notbech32"
+	default:
+		return good + " "
+	}
 }
